@@ -15,6 +15,8 @@ Record wf_facts (F : family_cfg) : Prop := {
   wf_lens_len : length (f_init_lens F) = f_nlanes F;
   wf_bs1 : 1 <= f_bsize F;
   wf_mb1 : 1 <= max_blocks F;
+  wf_mb3 : 3 <= max_blocks F;
+  wf_bs_div : 2 ^ 32 mod f_bsize F = 0;
   wf_ent1 : 1 <= f_ent_bits F;
   wf_pop : f_pop_bits F <= f_ent_bits F;
   wf_npop : N.of_nat (f_nlanes F) <= 2 ^ f_pop_bits F;
@@ -59,7 +61,7 @@ Proof.
   repeat match goal with Hx : (_ && _)%bool = true |- _ => apply andb_true_iff in Hx; destruct Hx end.
   constructor;
     try (apply Nat.leb_le; assumption); try (apply N.leb_le; assumption); try (apply Nat.eqb_eq; assumption);
-    try (apply N.ltb_lt; assumption).
+    try (apply N.ltb_lt; assumption); try (apply N.eqb_eq; assumption).
   - apply lm_nodupb_NoDup. assumption.
   - intros l Hl. match goal with Hx : forallb (fun l => (l <? f_nlanes F)%nat) _ = true |- _ =>
       rewrite forallb_forall in Hx; apply Nat.ltb_lt, Hx; assumption end.
@@ -788,4 +790,185 @@ Proof.
       exists p, i, jr. split; [assumption|]. split; [reflexivity|]. split; [split; [exact HR|cbn [length]; lia]|].
       intros l Hl. pose proof (Hmin l Hl) as H. assert (Hil : In i ls) by (eapply nth_error_In; eassumption).
       destruct (Hkeep l Hl) as [Ha _]. destruct (Hkeep i Hil) as [Hb _]. rewrite Ha, Hb in H. exact H.
+Qed.
+
+End LaneInv.
+
+(* ---- manager-level histories --------------------------------------------------------------- *)
+
+Inductive mop := MSubmit (j : job) | MFlush.
+
+Definition lm_step (compress : list N -> list N -> list N) (F : family_cfg) (m : mgr) (o : mop) : mgr * result :=
+  match o with MSubmit j => lm_submit compress F m j | MFlush => lm_flush compress F m end.
+
+Fixpoint lm_run (compress : list N -> list N -> list N) (F : family_cfg) (m : mgr) (ops : list mop) : mgr * list result :=
+  match ops with
+  | [] => (m, [])
+  | o :: r => let '(m1, x) := lm_step compress F m o in
+              let '(m2, xs) := lm_run compress F m1 r in (m2, x :: xs)
+  end.
+
+Definition mop_ok (F : family_cfg) (o : mop) : Prop :=
+  match o with MSubmit j => job_ok F j | MFlush => True end.
+
+(* the jobs inside the manager: nothing for a synchronous manager, the relation above otherwise *)
+Definition MRel (compress : list N -> list N -> list N) (F : family_cfg) (held : list job) (m : mgr) : Prop :=
+  if f_immediate F then held = [] /\ m_inuse m = 0%N else exists ls st, Rel compress F held ls st m.
+
+Lemma MRel_init compress F : cfg_wf F = true -> MRel compress F [] (lm_init F).
+Proof.
+  intros H. unfold MRel. destruct (f_immediate F) eqn:Hi; [split; reflexivity|].
+  exists [], (stack0 F). apply init_rel. apply cfg_wf_facts; assumption.
+Qed.
+
+(* one manager call: what comes back is a held job (or the submitted one), finished *)
+Lemma MRel_step compress F held m o :
+  cfg_wf F = true -> MRel compress F held m -> mop_ok F o ->
+  let held1 := match o with MSubmit j => held ++ [j] | MFlush => held end in
+  exists m' r, lm_step compress F m o = (m', r) /\
+    ((r = RNull /\ MRel compress F held1 m' /\ (o = MFlush -> held = [] /\ m' = m)) \/
+     (exists p jr, nth_error held1 p = Some jr /\ r = RJob (j_ctx jr) (jfinish compress jr) /\
+                   MRel compress F (remove_nth p held1) m')).
+Proof.
+  intros Hwf HR Hok. unfold MRel in *. destruct (f_immediate F) eqn:Hi.
+  - destruct HR as [-> Hz]. destruct o as [j|]; cbn [lm_step]; unfold lm_submit, lm_flush; rewrite Hi.
+    + exists m, (RJob (j_ctx j) (fold_left compress (j_blocks j) (j_chain j))). split; [reflexivity|]. right.
+      exists 0%nat, j. cbn. repeat split. assumption.
+    + exists m, RNull. split; [reflexivity|]. left. repeat split. assumption.
+  - pose proof (cfg_wf_facts F Hwf Hi) as HW. destruct HR as [ls [st HR]].
+    destruct o as [j|]; cbn [lm_step].
+    + destruct (submit_spec compress F HW held ls st m j HR Hok Hi) as [x [st' [m' [r [Hst [Hs Hcase]]]]]].
+      exists m', r. split; [exact Hs|]. destruct Hcase as [[-> HR'] | [p [i [jr [Hp [-> HR']]]]]].
+      * left. split; [reflexivity|]. split; [eauto|discriminate].
+      * right. exists p, jr. split; [assumption|]. split; [reflexivity|]. eauto.
+    + destruct (flush_spec compress F HW held ls st m HR Hi) as [m' [r [Hs Hcase]]].
+      exists m', r. split; [exact Hs|]. destruct Hcase as [[-> [-> ->]] | [p [i [jr [Hp [-> [HR' _]]]]]]].
+      * left. split; [reflexivity|]. split; [eauto|]. intros _. split; reflexivity.
+      * right. exists p, jr. split; [assumption|]. split; [reflexivity|]. eauto.
+Qed.
+
+(* L1/L3/L4: every reachable state is related to some list of held jobs, and no call faults *)
+Lemma lm_run_rel compress F ops : cfg_wf F = true -> Forall (mop_ok F) ops ->
+  forall held m, MRel compress F held m ->
+  exists held', MRel compress F held' (fst (lm_run compress F m ops)) /\
+                Forall (fun r => r <> RFault) (snd (lm_run compress F m ops)).
+Proof.
+  intros Hwf Hok. induction Hok as [|o ops Ho Hops IH]; intros held m HR; cbn [lm_run].
+  - exists held. split; [assumption|constructor].
+  - destruct (MRel_step compress F held m o Hwf HR Ho) as [m' [r [Hs Hcase]]]. rewrite Hs.
+    assert (Hnext : exists h1, MRel compress F h1 m' /\ r <> RFault).
+    { destruct Hcase as [[-> [H _]] | [p [jr [_ [-> H]]]]]; eexists; (split; [eassumption|discriminate]). }
+    destruct Hnext as [h1 [HR1 Hnf]]. destruct (IH h1 m' HR1) as [held' [HR' Hall]].
+    destruct (lm_run compress F m' ops) as [m2 xs]. cbn [fst snd] in *.
+    exists held'. split; [assumption|]. constructor; assumption.
+Qed.
+
+(* L5: flushing n held jobs out: n jobs come back, each a held one, each once; then NULL *)
+Lemma flush_drains compress F : cfg_wf F = true -> forall n held m, length held = n -> MRel compress F held m ->
+  exists rs m', lm_run compress F m (repeat MFlush (S n)) = (m', map (fun j => RJob (j_ctx j) (jfinish compress j)) rs ++ [RNull]) /\
+                Permutation rs held /\ MRel compress F [] m'.
+Proof.
+  intros Hwf. induction n as [|n IH]; intros held m Hlen HR.
+  - destruct held; [|discriminate]. cbn [repeat lm_run].
+    destruct (MRel_step compress F [] m MFlush Hwf HR I) as [m' [r [Hs Hcase]]]. rewrite Hs.
+    destruct Hcase as [[-> [HR' Hm]] | [p [jr [Hp _]]]]; [|destruct p; discriminate].
+    exists [], m'. split; [reflexivity|]. split; [constructor|assumption].
+  - change (repeat MFlush (S (S n))) with (MFlush :: repeat MFlush (S n)). cbn [lm_run].
+    destruct (MRel_step compress F held m MFlush Hwf HR I) as [m' [r [Hs Hcase]]]. rewrite Hs.
+    destruct Hcase as [[-> [_ Hm]] | [p [jr [Hp [-> HR']]]]].
+    + destruct (Hm eq_refl) as [-> _]. discriminate.
+    + assert (Hl' : length (remove_nth p held) = n).
+      { pose proof (lm_remove_nth_length held p jr Hp). lia. }
+      destruct (IH _ m' Hl' HR') as [rs [m2 [Hrun [Hperm HR2]]]].
+      rewrite Hrun. exists (jr :: rs), m2. split; [reflexivity|]. split; [|assumption].
+      etransitivity; [apply perm_skip; exact Hperm|]. symmetry. apply lm_remove_nth_perm. assumption.
+Qed.
+
+(* L1 spelled out: what the relation says about the packed manager state *)
+Lemma rel_invariant compress F held ls st m : wf_facts F -> Rel compress F held ls st m ->
+  NoDup st /\ NoDup ls /\ (forall l, In l st -> ~ In l ls) /\
+  (length st + length ls = f_nlanes F)%nat /\ length ls = length held /\
+  m_inuse m = N.of_nat (length ls) /\
+  stack_low (f_ent_bits F) st (m_unused m) /\
+  (forall l, In l st -> occupied (lane_at m l) = false) /\
+  (forall l, In l ls -> occupied (lane_at m l) = true /\
+                        len_at m l = packed F (rem_of (lane_at m l)) l /\ rem_of (lane_at m l) < max_blocks F).
+Proof.
+  intros HW [R _]. destruct (perm_facts F st ls (r_perm _ _ _ _ _ _ R)) as [Hnd [Hcount _]].
+  destruct (lm_NoDup_app _ _ Hnd) as [H1 [H2 H3]].
+  repeat split; try assumption; try (apply R; assumption).
+  - apply (lm_Forall2_length _ _ _ (r_jobs _ _ _ _ _ _ R)).
+  - eapply rel_occupied; eassumption.
+Qed.
+
+(* L2 (C15 packed_len_fits): a job of fewer than 2^32 bytes packs into the lens[] word without
+   loss: below 2^W, strictly below the idle word, and the lane and the block count come back out *)
+Lemma packed_len_fits F len lane old : cfg_wf F = true -> f_immediate F = false ->
+  len < 2 ^ 32 -> (lane < f_nlanes F)%nat ->
+  (f_pack F = PackHighField -> old mod 2 ^ f_shift F = N.of_nat lane) ->
+  let w := pack_submit F old (len / f_bsize F) (N.of_nat lane) in
+  w = (len / f_bsize F) * 2 ^ f_shift F + N.of_nat lane /\ w < 2 ^ f_W F /\ w < pack_idle F old /\
+  N.to_nat (N.land w (N.ones (f_idx_bits F))) = lane /\
+  N.shiftr (N.shiftl (N.shiftr w (f_clear_bits F)) (f_clear_bits F)) (f_shift F) = len / f_bsize F.
+Proof.
+  intros Hwf Hi Hlen Hlane Hold w. pose proof (cfg_wf_facts F Hwf Hi) as HW.
+  assert (Hb : len / f_bsize F < max_blocks F).
+  { unfold max_blocks. pose proof (wf_bs1 F HW). apply N.div_lt_upper_bound; [lia|].
+    pose proof (N.div_mod (2 ^ 32) (f_bsize F)) as Hd. rewrite (wf_bs_div F HW) in Hd. lia. }
+  assert (Hw : w = packed F (len / f_bsize F) lane) by (apply pack_submit_ok; assumption).
+  destruct (lane_lt_pow F HW lane Hlane) as [Hli [Hlc [Hls _]]].
+  split; [exact Hw|]. split; [rewrite Hw; apply packed_lt_W; assumption|].
+  split; [rewrite Hw; apply real_lt_idle; assumption|].
+  rewrite Hw. unfold packed. split.
+  - rewrite unpack_idx by (try assumption; pose proof (wf_idx_clear F HW); pose proof (wf_clear_shift F HW); lia).
+    apply Nat2N.id.
+  - rewrite unpack_len by (try assumption; apply (wf_clear_shift F HW)). apply unpack_blocks.
+Qed.
+
+(* L1 for every reachable state of a lane manager *)
+Lemma lanes_invariant compress F ops : cfg_wf F = true -> f_immediate F = false -> Forall (mop_ok F) ops ->
+  let m := fst (lm_run compress F (lm_init F) ops) in
+  exists (held : list job) (ls st : list nat),
+    NoDup st /\ NoDup ls /\ (forall l, In l st -> ~ In l ls) /\
+    (length st + length ls = f_nlanes F)%nat /\ length ls = length held /\
+    m_inuse m = N.of_nat (length ls) /\
+    stack_low (f_ent_bits F) st (m_unused m) /\
+    (forall l, In l st -> occupied (lane_at m l) = false) /\
+    (forall l, In l ls -> occupied (lane_at m l) = true /\
+                          len_at m l = packed F (rem_of (lane_at m l)) l /\ rem_of (lane_at m l) < max_blocks F).
+Proof.
+  intros Hwf Hi Hok m.
+  destruct (lm_run_rel compress F ops Hwf Hok [] (lm_init F) (MRel_init compress F Hwf)) as [held [HR _]].
+  unfold MRel in HR. rewrite Hi in HR. destruct HR as [ls [st HR]].
+  exists held, ls, st. apply (rel_invariant compress F held ls st _ (cfg_wf_facts F Hwf Hi) HR).
+Qed.
+
+(* L3: no reachable call dereferences a NULL job or runs a lane past the end of its buffer *)
+Lemma lanes_no_fault compress F ops : cfg_wf F = true -> Forall (mop_ok F) ops ->
+  Forall (fun r => r <> RFault) (snd (lm_run compress F (lm_init F) ops)).
+Proof.
+  intros Hwf Hok.
+  destruct (lm_run_rel compress F ops Hwf Hok [] (lm_init F) (MRel_init compress F Hwf)) as [_ [_ H]]. exact H.
+Qed.
+
+Lemma lanes_reachable compress F ops : cfg_wf F = true -> Forall (mop_ok F) ops ->
+  exists held, MRel compress F held (fst (lm_run compress F (lm_init F) ops)).
+Proof.
+  intros Hwf Hok.
+  destruct (lm_run_rel compress F ops Hwf Hok [] (lm_init F) (MRel_init compress F Hwf)) as [held [H _]]. eauto.
+Qed.
+
+(* L5: flush returns NULL exactly when nothing is held, i.e. (lane managers) num_lanes_inuse = 0 *)
+Lemma flush_null_iff compress F held m : cfg_wf F = true -> MRel compress F held m ->
+  (snd (lm_flush compress F m) = RNull <-> held = []) /\
+  (f_immediate F = false -> (held = [] <-> m_inuse m = 0%N)).
+Proof.
+  intros Hwf HR. split.
+  - destruct (MRel_step compress F held m MFlush Hwf HR I) as [m' [r [Hs Hcase]]]. cbn [lm_step] in Hs. rewrite Hs. cbn [snd].
+    destruct Hcase as [[-> [_ Hfl]] | [p [jr [Hp [-> _]]]]].
+    + split; [intros _; apply Hfl; reflexivity|reflexivity].
+    + split; [discriminate|]. intros ->. destruct p; discriminate.
+  - intros Hi. unfold MRel in HR. rewrite Hi in HR. destruct HR as [ls [st HR]].
+    destruct (rel_invariant compress F held ls st m (cfg_wf_facts F Hwf Hi) HR) as [_ [_ [_ [_ [Hl [Hu _]]]]]].
+    rewrite Hu. destruct held, ls; cbn in *; try discriminate; split; intros; try reflexivity; try discriminate; lia.
 Qed.
